@@ -114,7 +114,7 @@ var allReads = []string{"get", "has", "getwithindex", "getbyindex", "iterate", "
 	"versionedproof", "hash", "workinghash", "imhash", "getversioned", "getimmutable", "export"}
 
 var baseWeights = map[string]int{"set": 30, "remove": 12, "save": 18, "rollback": 3, "reopen": 7, "prune": 7, "prune_refuse": 1,
-	"lvfo": 3, "dvf": 2, "setnil": 1, "read": 0, "hop": 0, "iter": 0, "pin": 0, "unpin": 0}
+	"lvfo": 3, "dvf": 2, "setnil": 1, "read": 0, "hop": 0, "iter": 0, "pin": 0, "unpin": 0, "lvfo_invalid": 0}
 
 func weights(over map[string]int) map[string]int {
 	m := map[string]int{}
@@ -173,6 +173,7 @@ func GenOp(t *rapid.T, w *World, p *Profile) Op {
 		w.Excl["F3"]++
 	}
 	add("lvfo", rollbackOK)
+	add("lvfo_invalid", w.Latest > 0)
 	add("dvf", rollbackOK)
 	add("setnil", true)
 	add("read", true)
@@ -251,6 +252,12 @@ func GenOp(t *rapid.T, w *World, p *Profile) Op {
 		return Op{Kind: "prune", N: w.Latest + int64(rapid.IntRange(0, 1).Draw(t, "over"))}
 	case "lvfo":
 		return Op{Kind: "lvfo", N: rapid.SampledFrom(w.Retained()).Draw(t, "to")}
+	case "lvfo_invalid":
+		// below the oldest retained version (deleted / never existed) or above the latest
+		if w.First > 1 && rapid.Bool().Draw(t, "invLow") {
+			return Op{Kind: "lvfo_invalid", N: rapid.Int64Range(1, w.First-1).Draw(t, "invTo")}
+		}
+		return Op{Kind: "lvfo_invalid", N: w.Latest + int64(rapid.IntRange(1, 3).Draw(t, "invOver"))}
 	case "dvf":
 		return Op{Kind: "dvf", N: rapid.SampledFrom(w.Retained()).Draw(t, "to"), Flag: rapid.Bool().Draw(t, "fresh")}
 	case "hop":
